@@ -208,6 +208,8 @@ func runC03(c *eng.Ctx) {
 	compactionStreamFollowsTheOutputFile(c)
 	scannerAdvanceIsAllOrNothing(c)
 	downSamplingEmitsEverySlot(c)
+	editRecordTouchesOnlyItsLevel(c)
+	downSamplingStartsFromUnset(c)
 	everyCompactionInputIsRead(c)
 	compactionOutputClaimedUntilInstalled(c)
 
